@@ -1,10 +1,11 @@
 import TruthModel.Model.Diff
+import TruthModel.Model.DiffRaise
 /-
 C14 — difficulty labels and switches select exactly the stated difficulties.
 -/
 set_option linter.unusedSimpArgs false
 namespace TruthModel.C14
-open TruthModel TruthModel.Diff
+open TruthModel TruthModel.Diff TruthModel.DiffRaise
 
 /-! ### bit-level helpers (no `bv_decide`) -/
 
@@ -1209,5 +1210,1540 @@ theorem assign_exactly_one {α} (defs : Defs) (mask : Mask) (cases : List (Optio
         cases mask.getLsbD i <;> cases defs.defaultOn.getLsbD i <;> simp
 
 example : assignCopies defaultDefs 0x0F#8 [some 3, none, some 5, some 8] = .ok [(0b0011#8, 3), (0b0100#8, 5), (0b1000#8, 8)] := by decide
+
+/-! ### the decompile direction: `recognize_diff_switch` -/
+
+/-! finite facts about difficulty bytes (`decide` over all 256 masks / all 36 ranges) -/
+
+def contigCheck (m : Mask) : Bool :=
+  match firstBit m with
+  | some s => !contiguousBits m ||
+      (m == rangeMask s (s + (bitsOf m).length) && decide (0 < (bitsOf m).length) && decide (s + (bitsOf m).length ≤ 8))
+  | none => true
+
+set_option maxRecDepth 8192 in
+theorem contig_fin : ∀ hi, hi < 16 → ∀ lo, lo < 16 → contigCheck (BitVec.ofNat 8 (16 * hi + lo)) = true := by decide
+
+/-- a mask whose first bit is `s` and whose bits are contiguous is the run `s .. s + len` -/
+theorem contiguous_is_range (m : Mask) (s : Nat) (hf : firstBit m = some s) (hc : contiguousBits m = true) :
+    m = rangeMask s (s + (bitsOf m).length) ∧ 0 < (bitsOf m).length ∧ s + (bitsOf m).length ≤ 8 := by
+  have hm : BitVec.ofNat 8 (16 * (m.toNat / 16) + m.toNat % 16) = m := by
+    have : 16 * (m.toNat / 16) + m.toNat % 16 = m.toNat := Nat.div_add_mod m.toNat 16
+    rw [this]; simp
+  have h := contig_fin (m.toNat / 16) (by have := m.isLt; omega) (m.toNat % 16) (Nat.mod_lt _ (by omega))
+  rw [hm] at h
+  unfold contigCheck at h
+  rw [hf] at h
+  simp only [hc, Bool.not_true, Bool.false_or, Bool.and_eq_true, beq_iff_eq, decide_eq_true_eq] at h
+  exact ⟨h.1.1, h.1.2, h.2⟩
+
+theorem range_fin : ∀ a, a < 8 → ∀ b, b < 9 → a < b →
+    firstBit (rangeMask a b) = some a ∧ contiguousBits (rangeMask a b) = true ∧ (bitsOf (rangeMask a b)).length = b - a := by decide
+
+/-- the `assert!(!mask.is_empty())` of `bitmask_bits_are_contiguous` cannot fire behind `first() == Some(..)` -/
+theorem firstBit_some_nonempty (m : Mask) (s : Nat) (h : firstBit m = some s) : bitsOf m ≠ [] := by
+  intro h0; simp [firstBit, h0] at h
+
+/-! sorted lists of difficulties -/
+
+theorem sorted_ext : ∀ (a b : List Nat), a.Pairwise (· < ·) → b.Pairwise (· < ·) → (∀ x, x ∈ a ↔ x ∈ b) → a = b
+  | [], [], _, _, _ => rfl
+  | [], y :: b, _, _, h => by have := (h y).mpr (by simp); simp at this
+  | x :: a, [], _, _, h => by have := (h x).mp (by simp); simp at this
+  | x :: a, y :: b, ha, hb, h => by
+    have ha' := List.pairwise_cons.mp ha
+    have hb' := List.pairwise_cons.mp hb
+    have hxy : x = y := by
+      have h1 := (h x).mp (by simp)
+      have h2 := (h y).mpr (by simp)
+      rcases List.mem_cons.mp h1 with e | e
+      · exact e
+      · rcases List.mem_cons.mp h2 with e' | e'
+        · exact e'.symm
+        · have := hb'.1 x e; have := ha'.1 y e'; omega
+    subst hxy
+    congr 1
+    apply sorted_ext a b ha'.2 hb'.2
+    intro z
+    constructor
+    · intro hz
+      rcases List.mem_cons.mp ((h z).mp (List.mem_cons_of_mem _ hz)) with e | e
+      · subst e; have := ha'.1 z hz; omega
+      · exact e
+    · intro hz
+      rcases List.mem_cons.mp ((h z).mpr (List.mem_cons_of_mem _ hz)) with e | e
+      · subst e; have := hb'.1 z hz; omega
+      · exact e
+
+theorem bitsOf_sorted (m : Mask) : (bitsOf m).Pairwise (· < ·) := by
+  unfold bitsOf
+  exact List.Pairwise.filter _ (by decide)
+
+/-- `BitSet32` iteration returns the inserted difficulties, ascending -/
+theorem bitsOf_ofList (l : List Nat) (hs : l.Pairwise (· < ·)) (h8 : ∀ x ∈ l, x < 8) :
+    bitsOf (l.foldl (fun m i => setBit m i true) 0#8) = l := by
+  apply sorted_ext _ _ (bitsOf_sorted _) hs
+  intro x
+  rw [mem_bitsOf]
+  constructor
+  · intro ⟨hx, hb⟩
+    rw [getLsbD_foldl_setBit _ _ _ _ hx] at hb
+    by_cases h : x ∈ l
+    · exact h
+    · simp [h] at hb
+  · intro h
+    exact ⟨h8 x h, by rw [getLsbD_foldl_setBit _ _ _ _ (h8 x h)]; simp [h]⟩
+
+/-! what the gathering loop guarantees -/
+
+/-- invariant of the instructions collected by the loop of `recognize_diff_switch`: each one starts
+at the difficulty where the previous one stopped, its difficulty part is exactly that contiguous run,
+its default-on part, kind and time are those of the first, and none but the first has a label -/
+inductive Chain (d : Defs) (first : RInstr) : Nat → Bool → List Rung → Prop where
+  | nil {next nz} : Chain d first next nz []
+  | cons {next nz r rs} :
+      r.start = next → r.start < r.stop → r.stop ≤ 8 →
+      diffPart d r.instr.mask = rangeMask r.start r.stop →
+      r.instr.mask &&& auxBits d = first.mask &&& auxBits d →
+      sameKind r.instr first = true → r.instr.time = first.time →
+      (nz = true → r.instr.label = false) →
+      Chain d first r.stop true rs → Chain d first next nz (r :: rs)
+
+theorem gather_chain (d : Defs) (first : RInstr) (l : List RInstr) (next n : Nat) :
+    Chain d first next (decide (0 < n)) (gather d first l next n) ∧
+    ∃ tl, l = (gather d first l next n).map (·.instr) ++ tl := by
+  induction l generalizing next n with
+  | nil => exact ⟨.nil, [], rfl⟩
+  | cons i rest ih =>
+    simp only [gather]
+    split
+    · exact ⟨.nil, i :: rest, rfl⟩
+    · rename_i h1
+      split
+      · exact ⟨.nil, i :: rest, rfl⟩
+      · rename_i h2
+        split
+        · exact ⟨.nil, i :: rest, rfl⟩
+        · rename_i h3
+          split
+          · exact ⟨.nil, i :: rest, rfl⟩
+          · rename_i h4
+            simp only [Bool.not_eq_true', Bool.not_eq_false', Bool.and_eq_true, beq_iff_eq,
+              Bool.not_eq_true, Bool.or_eq_false_iff, bne_eq_false_iff_eq, Bool.not_eq_false] at h1 h2 h3 h4
+            obtain ⟨hr, hlen, h8⟩ := contiguous_is_range _ next h4.1 h4.2
+            obtain ⟨ihc, tl, htl⟩ := ih (next + (bitsOf (diffPart d i.mask)).length) (n + 1)
+            refine ⟨.cons rfl (by simp; omega) h8 hr (by simpa using h1) h3.1 h3.2 ?_ (by simpa using ihc), tl, ?_⟩
+            · intro hn
+              simp only [hn, Bool.true_and] at h2
+              simpa using h2
+            · simp only [List.map_cons, List.cons_append]
+              rw [← htl]
+
+
+theorem chain_bounds {d first next nz rs} (h : Chain d first next nz rs) :
+    ∀ r ∈ rs, next ≤ r.start ∧ r.start < r.stop ∧ r.stop ≤ 8 := by
+  induction h with
+  | nil => intro r hr; simp at hr
+  | @cons next nz r rs h1 h2 h3 h4 h5 h6 h7 h8 hc ih =>
+    intro q hq
+    rcases List.mem_cons.mp hq with e | e
+    · subst e; exact ⟨by omega, h2, h3⟩
+    · have := ih q e; exact ⟨by omega, this.2⟩
+
+theorem chain_sorted {d first next nz rs} (h : Chain d first next nz rs) : (rs.map (·.start)).Pairwise (· < ·) := by
+  induction h with
+  | nil => simp
+  | @cons next nz r rs h1 h2 h3 h4 h5 h6 h7 h8 hc ih =>
+    simp only [List.map_cons, List.pairwise_cons]
+    refine ⟨?_, ih⟩
+    intro s hs
+    obtain ⟨q, hq, rfl⟩ := List.mem_map.mp hs
+    have := (chain_bounds hc q hq).1; omega
+
+theorem numDifficulties_cons (r q : Rung) (rs : List Rung) : numDifficulties (r :: q :: rs) = numDifficulties (q :: rs) := by
+  simp [numDifficulties, List.getLast?_cons_cons]
+
+theorem chain_ranges {d first next nz rs} (h : Chain d first next nz rs) (hne : rs ≠ []) :
+    ranges (rs.map (·.start) ++ [numDifficulties rs]) = rs.map (fun r => (r.start, r.stop)) := by
+  induction h with
+  | nil => exact absurd rfl hne
+  | @cons next nz r rs h1 h2 h3 h4 h5 h6 h7 h8 hc ih =>
+    cases hc with
+    | nil => simp [ranges, numDifficulties]
+    | @cons _ _ q qs g1 g2 g3 g4 g5 g6 g7 g8 gc =>
+      rw [numDifficulties_cons]
+      have := ih (by simp)
+      simp only [List.map_cons, List.cons_append, g1] at this
+      simp only [List.map_cons, List.cons_append, ranges, this, g1]
+
+theorem chain_stop_le {d first next nz rs} (h : Chain d first next nz rs) :
+    ∀ r ∈ rs, r.stop ≤ numDifficulties rs := by
+  induction h with
+  | nil => intro r hr; simp at hr
+  | @cons next nz r rs h1 h2 h3 h4 h5 h6 h7 h8 hc ih =>
+    cases hc with
+    | nil => intro q hq; simp at hq; subst hq; simp [numDifficulties]
+    | @cons _ _ q qs g1 g2 g3 g4 g5 g6 g7 g8 gc =>
+      intro x hx
+      rw [numDifficulties_cons]
+      rcases List.mem_cons.mp hx with e | e
+      · subst e
+        have := ih q (by simp)
+        omega
+      · exact ih x e
+
+theorem chain_tail_nolabel {d first next rs} (h : Chain d first next true rs) : ∀ r ∈ rs, r.instr.label = false := by
+  generalize hnz : true = nz at h
+  induction h with
+  | nil => intro r hr; simp at hr
+  | @cons next nz r rs h1 h2 h3 h4 h5 h6 h7 h8 hc ih =>
+    intro q hq
+    rcases List.mem_cons.mp hq with e | e
+    · subst e; exact h8 hnz.symm
+    · exact ih rfl q e
+
+theorem chain_all {d first next nz rs} (h : Chain d first next nz rs) : ∀ r ∈ rs,
+    diffPart d r.instr.mask = rangeMask r.start r.stop ∧ r.instr.mask &&& auxBits d = first.mask &&& auxBits d ∧
+    sameKind r.instr first = true ∧ r.instr.time = first.time := by
+  induction h with
+  | nil => intro r hr; simp at hr
+  | @cons next nz r rs h1 h2 h3 h4 h5 h6 h7 h8 hc ih =>
+    intro q hq
+    rcases List.mem_cons.mp hq with e | e
+    · subst e; exact ⟨h4, h5, h6, h7⟩
+    · exact ih q e
+
+theorem explicitMask_eq (rs : List Rung) :
+    explicitMask rs = (rs.map (·.start)).foldl (fun m i => setBit m i true) 0#8 := by
+  unfold explicitMask; rw [List.foldl_map]
+
+theorem chain_bitsOf_explicit {d first next nz rs} (h : Chain d first next nz rs) :
+    bitsOf (explicitMask rs) = rs.map (·.start) := by
+  rw [explicitMask_eq]
+  refine bitsOf_ofList _ (chain_sorted h) ?_
+  intro x hx
+  obtain ⟨q, hq, rfl⟩ := List.mem_map.mp hx
+  have := chain_bounds h q hq; omega
+
+theorem lookup_zip_map {β} (rs : List Rung) (f : Rung → β) (hs : (rs.map (·.start)).Pairwise (· < ·))
+    (r : Rung) (hr : r ∈ rs) :
+    ((rs.map (·.start)).zip (rs.map f)).lookup r.start = some (f r) := by
+  induction rs with
+  | nil => simp at hr
+  | cons q rs ih =>
+    simp only [List.map_cons, List.pairwise_cons] at hs
+    simp only [List.map_cons, List.zip_cons_cons, List.lookup_cons]
+    rcases List.mem_cons.mp hr with e | e
+    · subst e; simp
+    · have : q.start < r.start := hs.1 r.start (List.mem_map.mpr ⟨r, e, rfl⟩)
+      have hne : (r.start == q.start) = false := by simp; omega
+      simp only [hne]
+      exact ih hs.2 e
+
+theorem lookup_zip_isSome {β} (ks : List Nat) (vs : List β) (hl : ks.length = vs.length) (i : Nat) :
+    ((ks.zip vs).lookup i).isSome = decide (i ∈ ks) := by
+  induction ks generalizing vs with
+  | nil => simp
+  | cons k ks ih =>
+    cases vs with
+    | nil => simp at hl
+    | cons v vs =>
+      simp only [List.zip_cons_cons, List.lookup_cons, List.mem_cons]
+      by_cases h : i = k
+      · subst h; simp
+      · have : (i == k) = false := by simp [h]
+        simp only [this, h, false_or]
+        exact ih vs (by simpa using hl)
+
+theorem pick_self {α} (cs : List (Option α)) (d : Nat) (v : α) (h : cs[d]? = some (some v)) : pick cs d = some v := by
+  induction cs generalizing d with
+  | nil => simp at h
+  | cons c cs ih =>
+    cases d with
+    | zero => simpa [pick] using h
+    | succ d =>
+      have := ih d (by simpa using h)
+      simp [pick, this]
+
+theorem range_map_getD (l : List Int32) : (List.range l.length).map (fun k => l.getD k 0) = l := by
+  apply List.ext_getElem
+  · simp
+  · intro i h1 h2
+    simp [List.getD_eq_getElem?_getD, List.getElem?_eq_getElem h2]
+
+theorem selArgs_map {α} (d : Nat) (l : List α) (f : α → Arg) (v : α → Int32)
+    (h : ∀ x ∈ l, selArg d (f x) = .ok (v x)) : selArgs d (l.map f) = .ok (l.map v) := by
+  induction l with
+  | nil => rfl
+  | cons x l ih =>
+    have h1 := h x (by simp)
+    have h2 := ih (fun y hy => h y (by simp [hy]))
+    simp [selArgs, h1, h2]
+
+theorem wfCases_flat (n : Nat) (cs : List (Option Int32)) : wfCases n (liftCases cs) = true := by
+  induction cs with
+  | nil => rfl
+  | cons c cs ih =>
+    cases c with
+    | none => simpa [liftCases, wfCases] using ih
+    | some v => simpa [liftCases, wfCases, wfArg] using ih
+
+theorem explicitInCases_flat (cs : List (Option Int32)) (i : Nat) : explicitInCases (liftCases cs) i = false := by
+  induction cs with
+  | nil => rfl
+  | cons c cs ih =>
+    cases c with
+    | none => simpa [liftCases, explicitInCases] using ih
+    | some v => simpa [liftCases, explicitInCases, explicitIn] using ih
+
+theorem toArg_sw (cs : List (Option Int32)) : toArg (.sw cs) = .sw (liftCases cs) := rfl
+
+
+/-- the case list of a recovered switch holds, at the start of every gathered instruction, that
+instruction's value -/
+theorem switch_get {d first nz} (rs : List Rung) (hchain : Chain d first 0 nz rs) (k : Nat) (r : Rung) (hr : r ∈ rs) :
+    (switchFromExplicit (numDifficulties rs) (explicitMask rs) (column rs k))[r.start]? = some (some (r.instr.args.getD k 0)) := by
+  have hlt : r.start < numDifficulties rs := by
+    have := chain_stop_le hchain r hr; have := chain_bounds hchain r hr; omega
+  simp only [switchFromExplicit, List.getElem?_map, List.getElem?_range hlt, Option.map_some]
+  rw [chain_bitsOf_explicit hchain]
+  unfold column
+  rw [lookup_zip_map rs _ (chain_sorted hchain) r hr]
+
+theorem switch_get_isSome {d first nz} (rs : List Rung) (hchain : Chain d first 0 nz rs) (k i : Nat) :
+    ((switchFromExplicit (numDifficulties rs) (explicitMask rs) (column rs k))[i]?).join.isSome = decide (i ∈ rs.map (·.start)) := by
+  by_cases hlt : i < numDifficulties rs
+  · simp only [switchFromExplicit, List.getElem?_map, List.getElem?_range hlt, Option.map_some, Option.join_some]
+    rw [chain_bitsOf_explicit hchain]
+    exact lookup_zip_isSome _ _ (by simp [column]) i
+  · have hnot : i ∉ rs.map (·.start) := by
+      intro hm
+      obtain ⟨q, hq, rfl⟩ := List.mem_map.mp hm
+      have := chain_stop_le hchain q hq; have := chain_bounds hchain q hq; omega
+    have : (switchFromExplicit (numDifficulties rs) (explicitMask rs) (column rs k))[i]? = none := by
+      simp [switchFromExplicit]; omega
+    simp [this, hnot]
+
+theorem selArg_switchOrScalar {d first nz} (cfg : Cfg) (op : Nat) (rs : List Rung) (hchain : Chain d first 0 nz rs) (k : Nat)
+    (hex : ((column rs k).all fun c => valEq cfg op k c ((column rs k).headD 0)) = true →
+      ∀ r ∈ rs, r.instr.args.getD k 0 = (column rs k).headD 0)
+    (r : Rung) (hr : r ∈ rs) :
+    selArg r.start (toArg (switchOrScalar cfg op (numDifficulties rs) (explicitMask rs) k (column rs k))) = .ok (r.instr.args.getD k 0) := by
+  unfold switchOrScalar
+  split
+  · rename_i hall
+    have := hex hall r hr
+    simp only [toArg, selArg, this]
+  · rw [toArg_sw, selArg_flat]
+    have hlt : r.start < numDifficulties rs := by
+      have := chain_stop_le hchain r hr; have := chain_bounds hchain r hr; omega
+    have hlen : (switchFromExplicit (numDifficulties rs) (explicitMask rs) (column rs k)).length = numDifficulties rs := by
+      simp [switchFromExplicit]
+    simp only [selectCase, hlen, hlt, if_true, pick_self _ _ _ (switch_get rs hchain k r hr)]
+
+theorem wfArg_switchOrScalar {d first nz} (cfg : Cfg) (op : Nat) (rs : List Rung) (hchain : Chain d first 0 nz rs) (k : Nat)
+    (hne : rs ≠ []) :
+    wfArg (numDifficulties rs) (toArg (switchOrScalar cfg op (numDifficulties rs) (explicitMask rs) k (column rs k))) = true := by
+  unfold switchOrScalar
+  split
+  · simp [toArg, wfArg]
+  · rw [toArg_sw]
+    simp only [wfArg, wfCases_flat, Bool.and_true, Bool.and_eq_true, beq_iff_eq]
+    constructor
+    · simp [liftCases, switchFromExplicit]
+    · cases hchain with
+      | nil => exact absurd rfl hne
+      | @cons _ _ r rs' h1 h2 h3 h4 h5 h6 h7 h8 hc =>
+        have hg := switch_get (r :: rs') (.cons h1 h2 h3 h4 h5 h6 h7 h8 hc) k r (by simp)
+        rw [h1] at hg
+        rw [List.head?_eq_getElem?]
+        simp only [liftCases, List.getElem?_map, hg]
+        simp
+
+theorem explicitIn_switchOrScalar {d first nz} (cfg : Cfg) (op : Nat) (rs : List Rung) (hchain : Chain d first 0 nz rs) (k i : Nat) :
+    explicitIn (toArg (switchOrScalar cfg op (numDifficulties rs) (explicitMask rs) k (column rs k))) i =
+      (isSw (toArg (switchOrScalar cfg op (numDifficulties rs) (explicitMask rs) k (column rs k))) && decide (i ∈ rs.map (·.start))) := by
+  unfold switchOrScalar
+  split
+  · simp [toArg, explicitIn, isSw]
+  · rw [toArg_sw]
+    simp only [explicitIn, explicitInCases_flat, Bool.or_false, isSw, Bool.true_and]
+    rw [← switch_get_isSome rs hchain k i]
+    simp only [liftCases, List.getElem?_map]
+    cases (switchFromExplicit (numDifficulties rs) (explicitMask rs) (column rs k))[i]? with
+    | none => rfl
+    | some o => cases o <;> rfl
+
+theorem isSw_toArg (a : RArg) : isSw (toArg a) = a.isSw := by cases a <;> rfl
+
+
+theorem rangeMask_ne_zero (s e : Nat) (h : s < e) (h8 : e ≤ 8) : rangeMask s e ≠ 0#8 := by
+  intro h0
+  have := congrArg (·.getLsbD s) h0
+  simp only [rangeMask_get s e s (by omega), BitVec.getLsbD_zero] at this
+  simp at this; omega
+
+/-- mask arithmetic of a fold: with the statement mask `aux ∪ all difficulty bits`, the copy for the
+range of a gathered instruction is that instruction's mask again -/
+theorem fold_mask_facts (d : Defs) (am rm : Mask) (s e : Nat)
+    (hdp : diffPart d rm = rangeMask s e) (haux : rm &&& auxBits d = am &&& auxBits d) :
+    ((((am &&& auxBits d) ||| diffBits d) &&& diffBits d) &&& rangeMask s e = rangeMask s e) ∧
+    (rangeMask s e ||| (((am &&& auxBits d) ||| diffBits d) &&& auxBits d) = rm) := by
+  constructor <;> apply mask_ext <;> intro j hj
+  all_goals
+    have h1 := congrArg (·.getLsbD j) hdp
+    have h2 := congrArg (·.getLsbD j) haux
+    simp only [diffPart, auxBits, diffBits, BitVec.getLsbD_xor, BitVec.getLsbD_and, BitVec.getLsbD_or,
+      BitVec.getLsbD_not, hj, decide_true, Bool.true_and] at h1 h2 ⊢
+    rw [← h1]
+    revert h2
+    cases rm.getLsbD j <;> cases am.getLsbD j <;> cases d.defaultOn.getLsbD j <;> simp
+
+theorem expandGo_rungs (d : Defs) (M : Mask) (args : List Arg) (sub : List Rung)
+    (h : ∀ r ∈ sub, selArgs r.start args = .ok r.instr.args ∧
+      (M &&& diffBits d) &&& rangeMask r.start r.stop ≠ 0#8 ∧
+      ((M &&& diffBits d) &&& rangeMask r.start r.stop) ||| (M &&& auxBits d) = r.instr.mask) :
+    expandGo d M args (sub.map fun r => (r.start, r.stop)) = .ok (sub.map fun r => ⟨r.instr.mask, r.instr.args⟩) := by
+  induction sub with
+  | nil => rfl
+  | cons r sub ih =>
+    obtain ⟨h1, h2, h3⟩ := h r (by simp)
+    have := ih (fun q hq => h q (by simp [hq]))
+    simp only [List.map_cons, expandGo, h2, if_false, h1, this, h3]
+
+theorem printLabel_readLabel (d : Defs) (h : Inv d) (m : Mask) :
+    ∃ lab, printLabel d m = .ok lab ∧ readLabel d lab = .ok m := by
+  by_cases hm : m = 0xFF#8
+  · exact ⟨none, by simp [printLabel, hm], by simp [readLabel, hm]⟩
+  · obtain ⟨s, h1, h2⟩ := label_parse d h m
+    exact ⟨some s, by simp [printLabel, hm, h1], by simpa [readLabel] using h2⟩
+
+theorem numDifficulties_mem (rs : List Rung) (hne : rs ≠ []) : ∃ r ∈ rs, numDifficulties rs = r.stop := by
+  unfold numDifficulties
+  cases hl : rs.getLast? with
+  | none => simp at hl; exact absurd hl hne
+  | some r => exact ⟨r, List.mem_of_getLast? hl, rfl⟩
+
+theorem any_and_const {α} (l : List α) (p : α → Bool) (c : Bool) : l.any (fun x => p x && c) = (l.any p && c) := by
+  induction l with
+  | nil => simp
+  | cons x l ih => simp only [List.any_cons, ih]; cases p x <;> cases c <;> simp
+
+theorem explicitMask_get (rs : List Rung) (i : Nat) (hi : i < 8) :
+    (explicitMask rs).getLsbD i = decide (i ∈ rs.map (·.start)) := by
+  rw [explicitMask_eq, getLsbD_foldl_setBit _ _ _ _ hi]
+  by_cases h : i ∈ rs.map (·.start) <;> simp [h]
+
+theorem recognizeDiffSwitch_some {cfg : Cfg} {l : List RInstr} {s : RStmt} {rungs : List RInstr}
+    (h : recognizeDiffSwitch cfg l = some (s, rungs)) :
+    ∃ a tl, l = a :: tl ∧ 2 ≤ (gather cfg.defs a l 0 0).length ∧ 4 ≤ numDifficulties (gather cfg.defs a l 0 0) ∧
+      (∀ r ∈ gather cfg.defs a l 0 0, partsAgree a r.instr = true) ∧
+      (foldedArgs cfg a (gather cfg.defs a l 0 0)).any RArg.isSw = true ∧
+      s = { time := a.time, label := a.label, kind := a.kind, opcode := a.opcode, fixed := a.fixed,
+            args := foldedArgs cfg a (gather cfg.defs a l 0 0),
+            mask := (a.mask &&& auxBits cfg.defs) ||| diffBits cfg.defs } ∧
+      rungs = (gather cfg.defs a l 0 0).map (·.instr) := by
+  match l, h with
+  | [], h => simp [recognizeDiffSwitch] at h
+  | [_], h => simp [recognizeDiffSwitch] at h
+  | a :: b :: rest, h =>
+    simp only [recognizeDiffSwitch] at h
+    split at h
+    · simp at h
+    · split at h
+      · simp at h
+      · split at h
+        · simp at h
+        · rename_i h2 h4
+          split at h
+          · simp at h
+          · rename_i args hsw
+            simp only [Option.some.injEq, Prod.mk.injEq] at h
+            unfold switchifyParts at hsw
+            split at hsw
+            · simp at hsw
+            · rename_i hp
+              split at hsw
+              · simp at hsw
+              · rename_i hany
+                simp only [Option.some.injEq] at hsw
+                refine ⟨a, b :: rest, rfl, by omega, by omega, ?_, by simpa using hany, ?_, h.2.symm⟩
+                · intro r hr
+                  simp only [Bool.not_eq_true', Bool.not_eq_false'] at hp
+                  exact List.all_eq_true.mp (by simpa using hp) r hr
+                · rw [hsw]; exact h.1.symm
+
+
+/-- the raiser's equality on decoded arguments identifies no two different bit patterns among these
+instructions (fails only for a float argument that is `0.0` in one instruction and `-0.0` in another) -/
+def ExactArgs (cfg : Cfg) (l : List RInstr) : Prop :=
+  ∀ x ∈ l, ∀ y ∈ l, ∀ k, valEq cfg x.opcode k (y.args.getD k 0) (x.args.getD k 0) = true →
+    y.args.getD k 0 = x.args.getD k 0
+
+/-- the same, only where one fold needs it: an argument position in which every folded instruction
+compares equal to the first one holds the same bits in all of them -/
+def ExactFold (cfg : Cfg) (rungs : List RInstr) : Prop :=
+  ∀ a, rungs.head? = some a → ∀ k,
+    (rungs.all fun i => valEq cfg a.opcode k (i.args.getD k 0) (a.args.getD k 0)) = true →
+    ∀ i ∈ rungs, i.args.getD k 0 = a.args.getD k 0
+
+/-- **one fold compiles back to the instructions it replaced**: whenever `recognize_diff_switch`
+folds, the folded statement - label printed and parsed again, switches elaborated by `expand` -
+yields exactly the gathered instructions: same number, order, masks, argument values, times, parts,
+and the label in front of the first only. -/
+theorem fold_lowers_core (cfg : Cfg) (hinv : Inv cfg.defs) (l : List RInstr) (s : RStmt) (rungs : List RInstr)
+    (h : recognizeDiffSwitch cfg l = some (s, rungs)) (hloc : ExactFold cfg rungs) :
+    (∃ tl, l = rungs ++ tl) ∧ 2 ≤ rungs.length ∧ lowerStmt cfg.defs s = .ok (rungs.map (·.raw)) := by
+  obtain ⟨a, tl0, hl, hlen, hnum, hparts, hany, hs, hr⟩ := recognizeDiffSwitch_some h
+  obtain ⟨hchain, tl, htl⟩ := gather_chain cfg.defs a l 0 0
+  generalize hrs : gather cfg.defs a l 0 0 = rs at *
+  cases rs with
+  | nil => simp at hlen
+  | cons r0 rs1 =>
+  have hchain' : Chain cfg.defs a 0 false (r0 :: rs1) := by simpa using hchain
+  have ha : r0.instr = a := by
+    rw [hl] at htl
+    simp only [List.map_cons, List.cons_append] at htl
+    exact (List.cons.inj htl).1.symm
+  have hmem : ∀ r ∈ r0 :: rs1, r.instr ∈ l := by
+    intro r hr'
+    rw [htl]
+    exact List.mem_append_left _ (List.mem_map.mpr ⟨r, hr', rfl⟩)
+  have hal : a ∈ l := by rw [hl]; simp
+  have hb := chain_bounds hchain'
+  have hstop := chain_stop_le hchain'
+  have hall := chain_all hchain'
+  -- per-rung agreement of the parts
+  have hagree : ∀ r ∈ r0 :: rs1, r.instr.fixed = a.fixed ∧ r.instr.opcode = a.opcode ∧ r.instr.args.length = a.args.length := by
+    intro r hr'
+    have hp := hparts r hr'
+    have hk := (hall r hr').2.2.1
+    simp only [partsAgree, sameKind, Bool.and_eq_true, Bool.or_eq_true, beq_iff_eq] at hp hk
+    refine ⟨hp.1.1, ?_, hp.2⟩
+    rcases hp.1.2 with h1 | h1
+    · rcases hk.2 with h2 | h2
+      · rw [hk.1] at h2; rw [h1] at h2; cases h2
+      · exact h2
+    · exact h1
+  -- num ≤ 8
+  obtain ⟨rl, hrl, hrln⟩ := numDifficulties_mem (r0 :: rs1) (by simp)
+  have hn8 : numDifficulties (r0 :: rs1) ≤ 8 := by rw [hrln]; exact (hb rl hrl).2.2
+  -- the compiled arguments
+  have hsargs : s.args.map toArg = (List.range a.args.length).map (fun k =>
+      toArg (switchOrScalar cfg a.opcode (numDifficulties (r0 :: rs1)) (explicitMask (r0 :: rs1)) k (column (r0 :: rs1) k))) := by
+    rw [hs]; simp [foldedArgs, List.map_map, Function.comp_def]
+  have hhead : ∀ k, (column (r0 :: rs1) k).headD 0 = a.args.getD k 0 := by
+    intro k; simp [column, ha]
+  have hsel : ∀ r ∈ r0 :: rs1, selArgs r.start (s.args.map toArg) = .ok r.instr.args := by
+    intro r hr'
+    rw [hsargs]
+    have := selArgs_map r.start (List.range a.args.length)
+      (fun k => toArg (switchOrScalar cfg a.opcode (numDifficulties (r0 :: rs1)) (explicitMask (r0 :: rs1)) k (column (r0 :: rs1) k)))
+      (fun k => r.instr.args.getD k 0)
+      (fun k _ => selArg_switchOrScalar cfg a.opcode (r0 :: rs1) hchain' k
+        (fun hv q hq => by
+          rw [hhead k] at hv ⊢
+          have hv' : (rungs.all fun i => valEq cfg a.opcode k (i.args.getD k 0) (a.args.getD k 0)) = true := by
+            rw [hr, List.all_map]
+            simpa [column, List.all_map, Function.comp_def] using hv
+          exact hloc a (by rw [hr]; simp [ha]) k hv' q.instr (by rw [hr]; exact List.mem_map.mpr ⟨q, hq, rfl⟩)) r hr')
+    rw [this, ← (hagree r hr').2.2, range_map_getD]
+  have hwf : ∀ x ∈ s.args.map toArg, wfArg (numDifficulties (r0 :: rs1)) x = true := by
+    intro x hx
+    rw [hsargs] at hx
+    obtain ⟨k, _, rfl⟩ := List.mem_map.mp hx
+    exact wfArg_switchOrScalar cfg a.opcode (r0 :: rs1) hchain' k (by simp)
+  have hsw : (s.args.map toArg).any isSw = true := by
+    rw [List.any_map]
+    have : (isSw ∘ toArg) = RArg.isSw := by funext x; exact isSw_toArg x
+    rw [this, hs]; exact hany
+  -- the meta data `elaborate_diff_switches` collects
+  obtain ⟨_, hle, hge, hexp⟩ := metaOf_go (numDifficulties (r0 :: rs1)) (s.args.map toArg) hwf { num := 0, explicit := 0#8 }
+  have hmnum : (metaOf (s.args.map toArg)).num = numDifficulties (r0 :: rs1) := by
+    have h1 := hle (by simp)
+    have h2 := hge hsw
+    unfold metaOf; omega
+  have hmexp : (metaOf (s.args.map toArg)).explicit = explicitMask (r0 :: rs1) := by
+    apply mask_ext
+    intro i hi
+    have := hexp i hi
+    simp only [BitVec.getLsbD_zero, Bool.false_or] at this
+    unfold metaOf
+    rw [this, explicitMask_get _ _ hi]
+    unfold explicitAt
+    rw [hsargs, List.any_map]
+    simp only [Function.comp_def, explicitIn_switchOrScalar cfg a.opcode (r0 :: rs1) hchain']
+    rw [any_and_const]
+    have hsw' := hsw
+    rw [hsargs, List.any_map] at hsw'
+    simp only [Function.comp_def] at hsw'
+    rw [hsw']; simp
+  -- the label text
+  obtain ⟨lab, hpl, hrl'⟩ := printLabel_readLabel cfg.defs hinv s.mask
+  -- expansion
+  have hmask : s.mask = (a.mask &&& auxBits cfg.defs) ||| diffBits cfg.defs := by rw [hs]
+  have hgo := expandGo_rungs cfg.defs s.mask (s.args.map toArg) (r0 :: rs1) (by
+    intro r hr'
+    have hf := fold_mask_facts cfg.defs a.mask r.instr.mask r.start r.stop (hall r hr').1 (hall r hr').2.1
+    rw [hmask, hf.1]
+    exact ⟨hsel r hr', rangeMask_ne_zero _ _ (hb r hr').2.1 (hb r hr').2.2, hf.2⟩)
+  obtain ⟨cl, hcl⟩ := checkLens_ok (s.args.map toArg) (numDifficulties (r0 :: rs1)) hn8 hwf
+  have hexpand : expand cfg.defs s.mask (s.args.map toArg) =
+      .ok ((r0 :: rs1).map fun r => ⟨r.instr.mask, r.instr.args⟩) := by
+    unfold expand
+    rw [hcl]
+    simp only
+    unfold expandCore
+    have : ¬ (metaOf (s.args.map toArg)).num < 2 := by rw [hmnum]; omega
+    have this' : ¬ numDifficulties (r0 :: rs1) < 2 := by omega
+    simp only [this, this', if_false, Meta.caseRanges, hmnum, hmexp, chain_bitsOf_explicit hchain',
+      chain_ranges hchain' (by simp)]
+    exact hgo
+  refine ⟨⟨tl, by rw [hr]; exact htl⟩, by rw [hr]; simpa using hlen, ?_⟩
+  unfold lowerStmt
+  rw [hpl]; simp only; rw [hrl']; simp only; rw [hexpand]; simp only
+  rw [hr]
+  have htail := chain_tail_nolabel (by
+    cases hchain' with
+    | cons h1 h2 h3 h4 h5 h6 h7 h8 hc => exact hc : Chain cfg.defs a r0.stop true rs1)
+  simp only [List.map_cons, labelFirst, Outcome.ok.injEq, List.cons.injEq]
+  constructor
+  · rw [hs]; simp [RInstr.raw, ha]
+  · simp only [List.map_map]
+    apply List.map_congr_left
+    intro r hr'
+    have h1 := hagree r (List.mem_cons_of_mem _ hr')
+    have h2 := hall r (List.mem_cons_of_mem _ hr')
+    have h3 := htail r hr'
+    rw [hs]
+    simp [RInstr.raw, h1.1, h1.2.1, h2.2.2.2, h3]
+
+
+theorem exactArgs_mono (cfg : Cfg) (l l' : List RInstr) (h : ExactArgs cfg l) (hsub : ∀ x ∈ l', x ∈ l) : ExactArgs cfg l' :=
+  fun x hx y hy k hv => h x (hsub x hx) y (hsub y hy) k hv
+
+theorem exactFold_of_exactArgs (cfg : Cfg) (rungs : List RInstr) (h : ExactArgs cfg rungs) : ExactFold cfg rungs := by
+  intro a ha k hall i hi
+  have hamem : a ∈ rungs := List.mem_of_mem_head? ha
+  exact h a hamem i hi k (List.all_eq_true.mp hall i hi)
+
+/-! statements that are not folds -/
+
+theorem checkLens_vals (vs : List Int32) : checkLens (vs.map Arg.val) = .ok none := by
+  have : (vs.map Arg.val).flatMap switchLens = [] := by
+    induction vs with
+    | nil => rfl
+    | cons v vs ih => simp [List.flatMap_cons, switchLens, ih]
+  simp [checkLens, this]
+
+theorem metaOf_vals (vs : List Int32) (m : Meta) : (vs.map Arg.val).foldl metaArg m = m := by
+  induction vs with
+  | nil => rfl
+  | cons v vs ih => simpa [metaArg] using ih
+
+theorem selArgs_vals (d : Nat) (vs : List Int32) : selArgs d (vs.map Arg.val) = .ok vs := by
+  induction vs with
+  | nil => rfl
+  | cons v vs ih => simp [selArgs, selArg, ih]
+
+theorem expand_vals (d : Defs) (m : Mask) (vs : List Int32) : expand d m (vs.map Arg.val) = .ok [⟨m, vs⟩] := by
+  simp [expand, checkLens_vals, expandCore, metaOf, metaOf_vals, selArgs_vals]
+
+/-- an instruction printed by itself (as an intrinsic or as `ins_N(..)`) compiles back to itself -/
+theorem lowerStmt_plain (d : Defs) (hinv : Inv d) (i : RInstr) (k : Kind) :
+    lowerStmt d { plainStmt i with kind := k } = .ok [i.raw] := by
+  obtain ⟨lab, hpl, hrl⟩ := printLabel_readLabel d hinv i.mask
+  have hargs : (i.args.map RArg.one).map toArg = i.args.map Arg.val := by
+    rw [List.map_map]; rfl
+  simp [lowerStmt, plainStmt, hpl, hrl, hargs, expand_vals, labelFirst, RInstr.raw]
+
+theorem lowerStmts_append (d : Defs) (a b : List RStmt) (x y : List Raw)
+    (ha : lowerStmts d a = .ok x) (hb : lowerStmts d b = .ok y) : lowerStmts d (a ++ b) = .ok (x ++ y) := by
+  induction a generalizing x with
+  | nil => simp [lowerStmts] at ha; subst ha; simpa using hb
+  | cons s a ih =>
+    simp only [lowerStmts] at ha
+    cases h1 : lowerStmt d s with
+    | err c => simp [h1] at ha
+    | panic c => simp [h1] at ha
+    | ok u =>
+      cases h2 : lowerStmts d a with
+      | err c => simp [h1, h2] at ha
+      | panic c => simp [h1, h2] at ha
+      | ok w =>
+        simp [h1, h2] at ha
+        subst ha
+        simp [lowerStmts, h1, ih w h2]
+
+/-- what a fold looks like, without any assumption: the replaced instructions are a prefix of at
+least two, collected by the loop (`Chain`), covering at least four difficulties; the statement takes
+time, label, kind and parts of the first and the mask `aux ∪ all difficulty bits` -/
+theorem fold_spec {cfg : Cfg} {l : List RInstr} {s : RStmt} {rungs : List RInstr}
+    (h : recognizeDiffSwitch cfg l = some (s, rungs)) :
+    ∃ a tl0 rs tl, l = a :: tl0 ∧ rungs = rs.map (·.instr) ∧ l = rungs ++ tl ∧ 2 ≤ rs.length ∧
+      Chain cfg.defs a 0 false rs ∧ 4 ≤ numDifficulties rs ∧ (∀ r ∈ rs, partsAgree a r.instr = true) ∧
+      s.time = a.time ∧ s.label = a.label ∧ s.kind = a.kind ∧ s.opcode = a.opcode ∧ s.fixed = a.fixed ∧
+      s.mask = (a.mask &&& auxBits cfg.defs) ||| diffBits cfg.defs ∧ s.args = foldedArgs cfg a rs := by
+  obtain ⟨a, tl0, hl, hlen, hnum, hparts, hany, hs, hr⟩ := recognizeDiffSwitch_some h
+  obtain ⟨hchain, tl, htl⟩ := gather_chain cfg.defs a l 0 0
+  refine ⟨a, tl0, gather cfg.defs a l 0 0, tl, hl, hr, by rw [hr]; exact htl, hlen, by simpa using hchain, hnum, hparts, ?_⟩
+  rw [hs]; simp
+
+theorem fold_lowers (cfg : Cfg) (hinv : Inv cfg.defs) (l : List RInstr) (s : RStmt) (rungs : List RInstr)
+    (h : recognizeDiffSwitch cfg l = some (s, rungs)) (hexact : ExactArgs cfg l) :
+    (∃ tl, l = rungs ++ tl) ∧ 2 ≤ rungs.length ∧ lowerStmt cfg.defs s = .ok (rungs.map (·.raw)) := by
+  obtain ⟨a, tl0, rs, tl, hl, hr, htl, _⟩ := fold_spec h
+  exact fold_lowers_core cfg hinv l s rungs h
+    (exactFold_of_exactArgs cfg rungs (exactArgs_mono cfg l rungs hexact (fun x hx => by rw [htl]; exact List.mem_append_left _ hx)))
+
+/-- induction over the items `perform_recognition` produces -/
+theorem perform_forall (cfg : Cfg) (P : Item → Prop) (hplain : ∀ i, P (.plain i))
+    (hfold : ∀ l s rungs, recognizeDiffSwitch cfg l = some (s, rungs) → P (.folded s rungs))
+    (fuel : Nat) (is : List RInstr) : ∀ it ∈ performGo cfg fuel is, P it := by
+  induction fuel generalizing is with
+  | zero => intro it hit; simp [performGo] at hit
+  | succ fuel ih =>
+    cases is with
+    | nil => intro it hit; simp [performGo] at hit
+    | cons i rest =>
+      intro it hit
+      simp only [performGo] at hit
+      split at hit
+      · rename_i s rungs hrec
+        rcases List.mem_cons.mp hit with e | e
+        · subst e; exact hfold _ _ _ hrec
+        · exact ih _ it e
+      · rcases List.mem_cons.mp hit with e | e
+        · subst e; exact hplain i
+        · exact ih _ it e
+
+/-- recognition partitions the script: the instructions covered by the items, in order, are the script -/
+theorem perform_partition_go (cfg : Cfg) (fuel : Nat) (is : List RInstr) (hf : is.length ≤ fuel) :
+    (performGo cfg fuel is).flatMap Item.covers = is := by
+  induction fuel generalizing is with
+  | zero => have : is = [] := List.length_eq_zero_iff.mp (by omega)
+            subst this; rfl
+  | succ fuel ih =>
+    cases is with
+    | nil => rfl
+    | cons i rest =>
+      simp only [performGo]
+      split
+      · rename_i s rungs hrec
+        obtain ⟨a, tl0, rs, tl, hl, hr, htl, hlen, _⟩ := fold_spec hrec
+        have hrl : 2 ≤ rungs.length := by rw [hr]; simpa using hlen
+        have hdrop : (i :: rest).drop rungs.length = tl := by rw [htl]; simp
+        rw [hdrop, List.flatMap_cons, ih tl (by
+          have := congrArg List.length htl
+          simp only [List.length_cons, List.length_append] at this hf
+          omega)]
+        simp [Item.covers, htl]
+      · rw [List.flatMap_cons, ih rest (by simpa using hf)]
+        rfl
+
+theorem perform_partition (cfg : Cfg) (is : List RInstr) :
+    (performRecognition cfg is).flatMap Item.covers = is :=
+  perform_partition_go cfg is.length is (Nat.le_refl _)
+
+/-- **every instruction keeps its time**: the instructions an item covers all have the item's time
+(no fold across a time change), and so has every statement printed for the item. -/
+theorem recognize_preserves_times (cfg : Cfg) (is : List RInstr) :
+    (performRecognition cfg is).flatMap Item.covers = is ∧
+    ∀ it ∈ performRecognition cfg is, (∀ r ∈ it.covers, r.time = it.time) ∧ (∀ st ∈ render cfg it, st.time = it.time) := by
+  refine ⟨perform_partition cfg is, ?_⟩
+  unfold performRecognition
+  refine perform_forall cfg (fun it => (∀ r ∈ it.covers, r.time = it.time) ∧ (∀ st ∈ render cfg it, st.time = it.time)) ?_ ?_ is.length is
+  · intro i
+    refine ⟨by simp [Item.covers, Item.time], ?_⟩
+    intro st hst
+    simp only [render] at hst
+    split at hst <;> simp at hst <;> subst hst <;> simp [plainStmt, Item.time]
+  · intro l s rungs hrec
+    obtain ⟨a, tl0, rs, tl, hl, hr, htl, hlen, hchain, hnum, hparts, ht, _⟩ := fold_spec hrec
+    have hall := chain_all hchain
+    have htimes : ∀ r ∈ rungs, r.time = s.time := by
+      intro r hr'
+      rw [hr] at hr'
+      obtain ⟨q, hq, rfl⟩ := List.mem_map.mp hr'
+      rw [ht]; exact (hall q hq).2.2.2
+    refine ⟨by simpa [Item.covers, Item.time] using htimes, ?_⟩
+    intro st hst
+    simp only [render] at hst
+    split at hst
+    · simp at hst; subst hst; rfl
+    · cases hrm : rungs with
+      | nil => simp [hrm] at hst
+      | cons r0 rest =>
+        simp only [hrm, List.map_cons] at hst
+        rcases List.mem_cons.mp hst with e | e
+        · subst e; simp [plainStmt, Item.time]; exact htimes r0 (by simp [hrm])
+        · obtain ⟨q, hq, rfl⟩ := List.mem_map.mp e
+          simp [plainStmt, Item.time]; exact htimes q (by simp [hrm, hq])
+
+/-- **no fold across a label**: in a fold only the first instruction may carry an offset label, and
+the folded statement carries that label -/
+theorem recognize_no_fold_across_label (cfg : Cfg) (is : List RInstr) :
+    ∀ it ∈ performRecognition cfg is, ∀ s rungs, it = .folded s rungs →
+      ∃ r0 rest, rungs = r0 :: rest ∧ s.label = r0.label ∧ ∀ r ∈ rest, r.label = false := by
+  unfold performRecognition
+  refine perform_forall cfg (fun it => ∀ s rungs, it = .folded s rungs →
+      ∃ r0 rest, rungs = r0 :: rest ∧ s.label = r0.label ∧ ∀ r ∈ rest, r.label = false) ?_ ?_ is.length is
+  · intro i s rungs h; cases h
+  · intro l s rungs hrec s' rungs' he
+    cases he
+    obtain ⟨a, tl0, rs, tl, hl, hr, htl, hlen, hchain, hnum, hparts, ht, hlab, _⟩ := fold_spec hrec
+    cases hchain with
+    | nil => simp at hlen
+    | @cons _ _ r0 rs1 h1 h2 h3 h4 h5 h6 h7 h8 hc =>
+      have ha : r0.instr = a := by
+        rw [hl, hr] at htl
+        simp only [List.map_cons, List.cons_append] at htl
+        exact (List.cons.inj htl).1.symm
+      refine ⟨r0.instr, rs1.map (·.instr), by rw [hr]; rfl, by rw [hlab, ha], ?_⟩
+      intro r hr'
+      obtain ⟨q, hq, rfl⟩ := List.mem_map.mp hr'
+      exact chain_tail_nolabel hc q hq
+
+/-- **which masks are folded**: the difficulty parts of the folded instructions are the consecutive
+runs `[start, stop)` tiling `0 .. num` (first starts at difficulty 0, each is contiguous and starts
+where the previous one stopped, none overlaps), `num ≥ 4`, and all have the default-on bits, the kind
+and the time of the first (`Chain`) -/
+theorem recognize_fold_masks (cfg : Cfg) (is : List RInstr) :
+    ∀ it ∈ performRecognition cfg is, ∀ s rungs, it = .folded s rungs →
+      ∃ a rs, rungs = rs.map (·.instr) ∧ 2 ≤ rs.length ∧ Chain cfg.defs a 0 false rs ∧ 4 ≤ numDifficulties rs ∧
+        numDifficulties rs ≤ 8 ∧ s.mask = (a.mask &&& auxBits cfg.defs) ||| diffBits cfg.defs := by
+  unfold performRecognition
+  refine perform_forall cfg (fun it => ∀ s rungs, it = .folded s rungs →
+      ∃ a rs, rungs = rs.map (·.instr) ∧ 2 ≤ rs.length ∧ Chain cfg.defs a 0 false rs ∧ 4 ≤ numDifficulties rs ∧
+        numDifficulties rs ≤ 8 ∧ s.mask = (a.mask &&& auxBits cfg.defs) ||| diffBits cfg.defs) ?_ ?_ is.length is
+  · intro i s rungs h; cases h
+  · intro l s rungs hrec s' rungs' he
+    cases he
+    obtain ⟨a, tl0, rs, tl, hl, hr, htl, hlen, hchain, hnum, hparts, ht, hlab, hk, ho, hfx, hm, _⟩ := fold_spec hrec
+    have hne : rs ≠ [] := by intro h0; simp [h0] at hlen
+    obtain ⟨rl, hrl, hrln⟩ := numDifficulties_mem rs hne
+    exact ⟨a, rs, hr, hlen, hchain, hnum, by rw [hrln]; exact (chain_bounds hchain rl hrl).2.2, hm⟩
+
+theorem fold_head {cfg : Cfg} {i : RInstr} {rest : List RInstr} {s : RStmt} {rungs : List RInstr}
+    (h : recognizeDiffSwitch cfg (i :: rest) = some (s, rungs)) : s.kind = i.kind ∧ s.opcode = i.opcode := by
+  obtain ⟨a, tl0, rs, tl, hl, hr, htl, hlen, hchain, hnum, hparts, ht, hlab, hk, ho, _⟩ := fold_spec h
+  have : i = a := (List.cons.inj hl).1
+  subst this
+  exact ⟨hk, ho⟩
+
+theorem perform_sound (cfg : Cfg) (hinv : Inv cfg.defs) (fuel : Nat) (is : List RInstr) (hf : is.length ≤ fuel)
+    (hraise : ∀ i ∈ is, i.kind = .intr → cfg.raisable i.opcode = true) (hexact : ExactArgs cfg is) :
+    lowerStmts cfg.defs ((performGo cfg fuel is).flatMap (render cfg)) = .ok (is.map (·.raw)) := by
+  induction fuel generalizing is with
+  | zero => have : is = [] := List.length_eq_zero_iff.mp (by omega)
+            subst this; rfl
+  | succ fuel ih =>
+    cases is with
+    | nil => rfl
+    | cons i rest =>
+      have hcan : canRaise cfg i.kind i.opcode = true := by
+        unfold canRaise
+        cases hk : i.kind with
+        | ins => simp
+        | intr => simp [hraise i (by simp) hk]
+      simp only [performGo]
+      split
+      · rename_i s rungs hrec
+        obtain ⟨⟨tl, htl⟩, hrl, hlow⟩ := fold_lowers cfg hinv (i :: rest) s rungs hrec hexact
+        have hdrop : (i :: rest).drop rungs.length = tl := by rw [htl]; simp
+        have hsub : ∀ x ∈ tl, x ∈ i :: rest := by intro x hx; rw [htl]; exact List.mem_append_right _ hx
+        have ihtl := ih tl (by
+          have := congrArg List.length htl
+          simp only [List.length_cons, List.length_append] at this hf
+          omega) (fun x hx => hraise x (hsub x hx)) (exactArgs_mono cfg _ _ hexact hsub)
+        rw [hdrop, List.flatMap_cons]
+        have hk := fold_head hrec
+        have hrender : render cfg (.folded s rungs) = [s] := by simp [render, hk.1, hk.2, hcan]
+        rw [hrender]
+        have hone : lowerStmts cfg.defs [s] = .ok (rungs.map (·.raw)) := by simp [lowerStmts, hlow]
+        have := lowerStmts_append cfg.defs [s] _ _ _ hone ihtl
+        rw [this, htl]; simp
+      · have ihr := ih rest (by simpa using hf) (fun x hx => hraise x (by simp [hx]))
+          (exactArgs_mono cfg _ _ hexact (fun x hx => by simp [hx]))
+        rw [List.flatMap_cons]
+        have hone : lowerStmts cfg.defs (render cfg (.plain i)) = .ok [i.raw] := by
+          simp only [render, hcan, if_true]
+          have h2 : lowerStmt cfg.defs (plainStmt i) = .ok [i.raw] := lowerStmt_plain cfg.defs hinv i i.kind
+          simp [lowerStmts, h2]
+        have := lowerStmts_append cfg.defs _ _ _ _ hone ihr
+        rw [this]; simp
+
+/-- **the round trip at this layer** (C01 / C14): for every flag table satisfying the invariant and
+every instruction list, compiling the decompiled statements - difficulty label printed and parsed,
+switches elaborated by `expand` - gives back the instruction list: same instructions in the same
+order with the same times, masks, labels, parts and argument bit patterns, *whatever the raiser
+decided to fold*.  Two hypotheses, both necessary (`recognize_unsound_unraisable`,
+`recognize_unsound_signed_zero`): intrinsics have statement syntax, and the raiser's `==` on decoded
+arguments identifies no two different bit patterns of the script (only `0.0` / `-0.0` can). -/
+theorem recognize_sound (cfg : Cfg) (hinv : Inv cfg.defs) (is : List RInstr)
+    (hraise : ∀ i ∈ is, i.kind = .intr → cfg.raisable i.opcode = true) (hexact : ExactArgs cfg is) :
+    lowerStmts cfg.defs (recognize cfg is) = .ok (is.map (·.raw)) :=
+  perform_sound cfg hinv is.length is (Nat.le_refl _) hraise hexact
+
+
+/-! which scripts satisfy `ExactArgs` -/
+
+theorem f32Eq_true (a b : Int32) (h : f32Eq a b = true) : a = b ∨ (isZero32 a = true ∧ isZero32 b = true) := by
+  simp only [f32Eq, Bool.and_eq_true, Bool.or_eq_true, beq_iff_eq] at h
+  rcases h.2 with e | e
+  · exact .inl e
+  · exact .inr e
+
+/-- scripts without a float argument that is `0.0` or `-0.0` -/
+theorem exactArgs_of_no_float_zero (cfg : Cfg) (l : List RInstr)
+    (h : ∀ x ∈ l, ∀ op k, cfg.isFloat op k = true → isZero32 (x.args.getD k 0) = false) : ExactArgs cfg l := by
+  intro x hx y hy k hv
+  unfold valEq at hv
+  split at hv
+  · rename_i hf
+    rcases f32Eq_true _ _ hv with e | e
+    · exact e
+    · have := h x hx x.opcode k hf
+      rw [e.2] at this; cases this
+  · simpa using hv
+
+/-- scripts of a language whose signatures have no float parameters -/
+theorem exactArgs_int (cfg : Cfg) (l : List RInstr) (h : ∀ op k, cfg.isFloat op k = false) : ExactArgs cfg l := by
+  intro x hx y hy k hv
+  simpa [valEq, h] using hv
+
+/-! non-vacuity and the two necessity witnesses -/
+
+def cfgI : Cfg := { defs := defaultDefs, isFloat := fun _ _ => false, raisable := fun _ => true }
+def cfgF : Cfg := { defs := defaultDefs, isFloat := fun _ k => k == 1, raisable := fun _ => true }
+def cfgU : Cfg := { defs := defaultDefs, isFloat := fun _ _ => false, raisable := fun _ => false }
+
+def rung (t : Int32) (lab : Bool) (kind : Kind) (op : Nat) (m : Mask) (args : List Int32) : RInstr :=
+  { time := t, opcode := op, mask := m, label := lab, kind := kind, fixed := [], args := args }
+
+/-- `ins_1002(a, 7)` once per difficulty group E / N / HL, a label in front of the first, then the
+same instruction for difficulty 4 after a time change -/
+def ladderI : List RInstr :=
+  [rung 10 true .ins 1002 0b0001#8 [1, 7], rung 10 false .ins 1002 0b0010#8 [2, 7], rung 10 false .ins 1002 0b1100#8 [3, 7],
+   rung 20 false .ins 1002 0b10000#8 [4, 7]]
+
+example : recognize cfgI ladderI =
+    [{ time := 10, label := true, mask := 0xFF#8, kind := .ins, opcode := 1002, fixed := [],
+       args := [.sw [some 1, some 2, some 3, none], .one 7] },
+     { time := 20, label := false, mask := 0b10000#8, kind := .ins, opcode := 1002, fixed := [], args := [.one 4, .one 7] }] := by decide
+
+example : lowerStmts cfgI.defs (recognize cfgI ladderI) = .ok (ladderI.map (·.raw)) :=
+  recognize_sound cfgI inv_default ladderI (fun _ _ _ => rfl) (exactArgs_int cfgI _ (fun _ _ => rfl))
+
+-- nothing is folded across the label / across a non-contiguous mask / when the first mask does not start at difficulty 0
+example : (recognize cfgI [rung 0 false .ins 1001 1#8 [1], rung 0 false .ins 1001 2#8 [2], rung 0 true .ins 1001 4#8 [3],
+    rung 0 false .ins 1001 8#8 [4]]).length = 4 := by decide
+example : (recognize cfgI [rung 0 false .ins 1001 0b0101#8 [1], rung 0 false .ins 1001 0b0010#8 [2],
+    rung 0 false .ins 1001 0b1000#8 [3]]).length = 3 := by decide
+example : (recognize cfgI [rung 0 false .ins 1001 2#8 [1], rung 0 false .ins 1001 4#8 [2], rung 0 false .ins 1001 8#8 [3],
+    rung 0 false .ins 1001 16#8 [4]]).length = 4 := by decide
+
+/-- four `ins_1006(int, float)` for E / N / H / L whose float argument alternates `0.0` / `-0.0` -/
+def zeroLadder : List RInstr :=
+  [rung 0 false .ins 1006 1#8 [1, 0], rung 0 false .ins 1006 2#8 [2, -2147483648],
+   rung 0 false .ins 1006 4#8 [3, 0], rung 0 false .ins 1006 8#8 [4, -2147483648]]
+
+/-- **`recognize_sound` is false without `ExactArgs`** (finding
+`diff-switch-fold-merges-signed-float-zeros`): the float column compares equal under `f32 ==`, the
+fold keeps the first instruction's `0.0` for every difficulty, and the `-0.0` of Normal and Lunatic
+is gone after recompiling. -/
+theorem recognize_unsound_signed_zero :
+    recognize cfgF zeroLadder =
+      [{ time := 0, label := false, mask := 0xFF#8, kind := .ins, opcode := 1006, fixed := [],
+         args := [.sw [some 1, some 2, some 3, some 4], .one 0] }] ∧
+    lowerStmts cfgF.defs (recognize cfgF zeroLadder) ≠ .ok (zeroLadder.map (·.raw)) := by decide
+
+/-- four copies of an intrinsic without statement syntax (EoSD `cmp_int`, `CondJmp2A`) for E / N / H / L -/
+def cmpLadder : List RInstr :=
+  [rung 0 false .intr 27 1#8 [1, 10], rung 0 false .intr 27 2#8 [2, 10],
+   rung 0 false .intr 27 4#8 [3, 10], rung 0 false .intr 27 8#8 [4, 10]]
+
+/-- **`recognize_sound` is false for intrinsics without statement syntax** (finding
+`diff-switch-fold-of-unraisable-intrinsic-loses-difficulty`): the fold succeeds, the folded statement
+cannot be printed, its fallback prints the four instructions - all under the mask of the *fold*
+(every difficulty), so each of them runs on every difficulty after recompiling. -/
+theorem recognize_unsound_unraisable :
+    (recognize cfgU cmpLadder).map (·.mask) = [0xFF#8, 0xFF#8, 0xFF#8, 0xFF#8] ∧
+    lowerStmts cfgU.defs (recognize cfgU cmpLadder) ≠ .ok (cmpLadder.map (·.raw)) := by decide
+
+-- with statement syntax (or as plain `ins_27`) the same ladder round-trips
+example : lowerStmts cfgI.defs (recognize cfgI cmpLadder) = .ok (cmpLadder.map (·.raw)) :=
+  recognize_sound cfgI inv_default cmpLadder (fun _ _ _ => rfl) (exactArgs_int cfgI _ (fun _ _ => rfl))
+
+
+/-! ### the inverse direction: which statements the raiser recovers from their expansion -/
+
+/-- value of a statement argument at (explicit) difficulty `d` -/
+def argAt : RArg → Nat → Int32
+  | .one v, _ => v
+  | .sw cs, d => ((cs[d]?).join).getD 0
+
+/-- The statements `recognize_diff_switch` recovers (`recognize_expand`); every fold has this shape
+(compared on every run, not proved): the label selects every difficulty (`allDiff`); the switches have
+`n` cases, `4 ≤ n ≤ 8`, and difficulties `0 .. n` are difficulty bits of the table; every switch has
+a case exactly at the difficulties `E` (0 among them, at least two); a plain argument equals itself
+under the raiser's `==` (not a NaN float); the explicit cases of a switch are not all `==` to its
+first case; at least one argument is a switch.  Everything else is *deliberately* left unfolded or
+comes back in this normal form: fewer than four difficulties, a label that excludes a difficulty,
+holes in one switch where another has a case (`(1:2:3:4)` next to `(5::6:)` comes back as
+`(5:5:6:6)`), a switch whose cases are all equal (comes back as a plain value). -/
+structure Canonical (cfg : Cfg) (n : Nat) (E : Mask) (s : RStmt) : Prop where
+  n4 : 4 ≤ n
+  n8 : n ≤ 8
+  diffRun : ∀ j, j < n → (auxBits cfg.defs).getLsbD j = false
+  allDiff : s.mask &&& diffBits cfg.defs = diffBits cfg.defs
+  e0 : E.getLsbD 0 = true
+  eLt : ∀ i, i < 8 → E.getLsbD i = true → i < n
+  two : 2 ≤ (bitsOf E).length
+  someSw : s.args.any RArg.isSw = true
+  oneOk : ∀ k v, s.args[k]? = some (.one v) → valEq cfg s.opcode k v v = true
+  swOk : ∀ k cs, s.args[k]? = some (.sw cs) → cs.length = n ∧ (∀ i, i < n → (cs[i]?).join.isSome = E.getLsbD i) ∧
+    ((bitsOf E).map (argAt (.sw cs))).all (fun c => valEq cfg s.opcode k c (argAt (.sw cs) 0)) = false
+
+/-- the copy of a statement for the difficulties `r.1 .. r.2` -/
+def mkI (cfg : Cfg) (s : RStmt) (lab : Bool) (r : Nat × Nat) : RInstr :=
+  { time := s.time, opcode := s.opcode, label := lab, kind := s.kind, fixed := s.fixed,
+    mask := rangeMask r.1 r.2 ||| (s.mask &&& auxBits cfg.defs), args := s.args.map (argAt · r.1) }
+
+/-- the instructions a canonical statement compiles to (`lowerStmt_canonical`): one per explicit
+difficulty, covering the difficulties up to the next one -/
+def compiledOf (cfg : Cfg) (n : Nat) (E : Mask) (s : RStmt) : List RInstr :=
+  match ranges (bitsOf E ++ [n]) with
+  | [] => []
+  | r0 :: rest => mkI cfg s s.label r0 :: rest.map (mkI cfg s false)
+
+/-- consecutive ranges from `a` to `e` -/
+inductive Consec : Nat → Nat → List (Nat × Nat) → Prop where
+  | nil {a} : Consec a a []
+  | cons {a b e rest} : a < b → Consec b e rest → Consec a e ((a, b) :: rest)
+
+theorem ranges_consec : ∀ (l : List Nat) (a e : Nat), (a :: (l ++ [e])).Pairwise (· < ·) →
+    Consec a e (ranges (a :: (l ++ [e])))
+  | [], a, e, h => by
+    have : a < e := by simpa using h
+    simpa [ranges] using Consec.cons this .nil
+  | b :: l, a, e, h => by
+    have hp := List.pairwise_cons.mp h
+    simp only [List.cons_append, ranges]
+    exact .cons (hp.1 b (by simp)) (ranges_consec l b e hp.2)
+
+theorem consec_le {a e rr} (h : Consec a e rr) : a ≤ e := by
+  induction h with
+  | nil => exact Nat.le_refl _
+  | cons h1 _ ih => omega
+
+theorem ranges_fst : ∀ (l : List Nat) (e : Nat), (ranges (l ++ [e])).map (·.1) = l
+  | [], e => by simp [ranges]
+  | [a], e => by simp [ranges]
+  | a :: b :: l, e => by
+    have := ranges_fst (b :: l) e
+    simp only [List.cons_append, ranges, List.map_cons] at this ⊢
+    rw [this]
+
+theorem ofList_bitsOf (E : Mask) : (bitsOf E).foldl (fun m i => setBit m i true) 0#8 = E := by
+  apply mask_ext
+  intro j hj
+  rw [getLsbD_foldl_setBit _ _ _ _ hj]
+  by_cases h : E.getLsbD j = true
+  · simp [mem_bitsOf, hj, h]
+  · simp [mem_bitsOf, hj, h]
+
+theorem lookup_zip_self_map {β} (l : List Nat) (f : Nat → β) (i : Nat) :
+    (l.zip (l.map f)).lookup i = if i ∈ l then some (f i) else none := by
+  induction l with
+  | nil => simp
+  | cons x l ih =>
+    simp only [List.map_cons, List.zip_cons_cons, List.lookup_cons, List.mem_cons]
+    by_cases h : i = x
+    · subst h; simp
+    · have : (i == x) = false := by simp [h]
+      simp only [this, h, false_or]
+      exact ih
+
+/-- the converse of `gather_chain`: instructions satisfying the loop's conditions are all gathered -/
+theorem gather_of_chain (d : Defs) (first : RInstr) (tail : List RInstr) {next nz rs} (h : Chain d first next nz rs)
+    (cnt : Nat) (hnz : nz = decide (0 < cnt)) (e : Nat)
+    (he : e = (match rs.getLast? with | some r => r.stop | none => next))
+    (htail : ∀ c, gather d first tail e c = []) :
+    gather d first (rs.map (·.instr) ++ tail) next cnt = rs := by
+  induction h generalizing cnt with
+  | nil => simp at he; subst he; simpa using htail cnt
+  | @cons next nz r rs h1 h2 h3 h4 h5 h6 h7 h8 hc ih =>
+    subst h1
+    obtain ⟨f1, f2, f3⟩ := range_fin r.start (by omega) r.stop (by omega) h2
+    have hl : r.instr.label = false ∨ cnt = 0 := by
+      by_cases hc0 : cnt = 0
+      · exact .inr hc0
+      · exact .inl (h8 (by rw [hnz]; simp; omega))
+    have hlab : (decide (0 < cnt) && r.instr.label) = false := by
+      rcases hl with e1 | e1
+      · simp [e1]
+      · simp [e1]
+    have hsk : (!sameKind r.instr first || r.instr.time != first.time) = false := by simp [h6, h7]
+    simp only [List.map_cons, List.cons_append, gather, h5, bne_self_eq_false, hlab, hsk, h4, f1, f2, f3,
+      Bool.false_eq_true, if_false, beq_self_eq_true, Bool.and_self, Bool.not_true]
+    have hstop : r.start + (r.stop - r.start) = r.stop := by omega
+    rw [hstop]
+    have hrec := ih (cnt + 1) (by simp) (by
+      cases rs with
+      | nil => simp at he ⊢; exact he
+      | cons q qs =>
+        rw [List.getLast?_cons_cons] at he
+        cases hq : (q :: qs).getLast? with
+        | none => simp at hq
+        | some x => simpa [hq] using he)
+    rw [hrec]
+
+theorem tail_stops (d : Defs) (first : RInstr) (tail : List RInstr) (n : Nat)
+    (h : ∀ t, tail.head? = some t → firstBit (diffPart d t.mask) ≠ some n) : ∀ c, gather d first tail n c = [] := by
+  intro c
+  cases tail with
+  | nil => rfl
+  | cons t rest =>
+    have := h t rfl
+    simp only [gather]
+    split
+    · rfl
+    · split
+      · rfl
+      · split
+        · rfl
+        · have hb : (firstBit (diffPart d t.mask) == some n) = false := by simpa using this
+          simp [hb]
+
+section Canon
+variable {cfg : Cfg} {n : Nat} {E : Mask} {s : RStmt}
+
+theorem range_no_aux (hc : Canonical cfg n E s) (a b j : Nat) (hj : j < 8) (hb : b ≤ n)
+    (h : (rangeMask a b).getLsbD j = true) : (auxBits cfg.defs).getLsbD j = false := by
+  rw [rangeMask_get _ _ _ hj] at h
+  simp only [Bool.and_eq_true, decide_eq_true_eq] at h
+  exact hc.diffRun j (by omega)
+
+/-- what the loop needs to know about one compiled copy -/
+theorem mkI_facts (hc : Canonical cfg n E s) (lab lab0 : Bool) (r r0 : Nat × Nat) (hb : r.2 ≤ n) :
+    (mkI cfg s lab r).mask &&& auxBits cfg.defs = (mkI cfg s lab0 r0).mask &&& auxBits cfg.defs ∨ ¬ r0.2 ≤ n := by
+  by_cases hb0 : r0.2 ≤ n
+  · left
+    apply mask_ext
+    intro j hj
+    simp only [mkI, BitVec.getLsbD_and, BitVec.getLsbD_or]
+    have h1 := fun h => range_no_aux hc r.1 r.2 j hj hb h
+    have h2 := fun h => range_no_aux hc r0.1 r0.2 j hj hb0 h
+    cases hr : (rangeMask r.1 r.2).getLsbD j <;> cases hr0 : (rangeMask r0.1 r0.2).getLsbD j <;>
+      cases ha : (auxBits cfg.defs).getLsbD j <;> simp_all
+  · exact .inr hb0
+
+theorem mkI_diffPart (hc : Canonical cfg n E s) (lab : Bool) (r : Nat × Nat) (hb : r.2 ≤ n) :
+    diffPart cfg.defs (mkI cfg s lab r).mask = rangeMask r.1 r.2 := by
+  apply mask_ext
+  intro j hj
+  simp only [mkI, diffPart, BitVec.getLsbD_xor, BitVec.getLsbD_and, BitVec.getLsbD_or]
+  have h1 := fun h => range_no_aux hc r.1 r.2 j hj hb h
+  cases hr : (rangeMask r.1 r.2).getLsbD j <;> cases ha : (auxBits cfg.defs).getLsbD j <;>
+    cases hm : s.mask.getLsbD j <;> simp_all
+
+theorem mkI_sameKind (lab lab0 : Bool) (r r0 : Nat × Nat) : sameKind (mkI cfg s lab r) (mkI cfg s lab0 r0) = true := by
+  simp [sameKind, mkI]
+
+/-- the compiled copies of a run of consecutive ranges satisfy the loop invariant -/
+theorem chain_of_consec (hc : Canonical cfg n E s) (first : RInstr) (lab0 : Bool) (r0 : Nat × Nat) (h0 : r0.2 ≤ n)
+    (hfirst : first = mkI cfg s lab0 r0) {a e rr} (h : Consec a e rr) (he : e ≤ n) :
+    Chain cfg.defs first a true (rr.map fun r => ⟨r.1, r.2, mkI cfg s false r⟩) := by
+  induction h with
+  | nil => exact .nil
+  | @cons a b e rest hab hrest ih =>
+    have hbn : b ≤ n := by have := consec_le hrest; omega
+    simp only [List.map_cons]
+    refine .cons rfl hab (by show b ≤ 8; have := hc.n8; omega) (mkI_diffPart hc false (a, b) hbn) ?_ ?_ ?_ (fun _ => rfl) (ih he)
+    · rcases mkI_facts hc false lab0 (a, b) r0 hbn with h | h
+      · rw [hfirst]; exact h
+      · exact absurd h0 h
+    · rw [hfirst]; exact mkI_sameKind _ _ _ _
+    · rw [hfirst]; rfl
+
+theorem consec_num {a e rr} (h : Consec a e rr) (f : Nat × Nat → RInstr) (hne : rr ≠ []) :
+    numDifficulties (rr.map fun r => ⟨r.1, r.2, f r⟩) = e := by
+  induction h with
+  | nil => exact absurd rfl hne
+  | @cons a b e rest hab hrest ih =>
+    cases hrest with
+    | nil => simp [numDifficulties]
+    | @cons _ c _ rest' hbc hr' =>
+      have := ih (by simp)
+      simp only [List.map_cons] at this ⊢
+      rw [numDifficulties_cons]
+      exact this
+
+end Canon
+
+/-- `recognize_diff_switch` succeeds with the gathered instructions `rs` when its tests pass -/
+theorem recognizeDiffSwitch_eq (cfg : Cfg) (a b : RInstr) (rest : List RInstr) (rs : List Rung)
+    (hk : sameKind a b = true) (ht : a.time = b.time) (hm : a.mask ≠ 0xFF#8)
+    (hg : gather cfg.defs a (a :: b :: rest) 0 0 = rs) (hlen : 2 ≤ rs.length) (hnum : 4 ≤ numDifficulties rs)
+    (hparts : rs.all (fun r => partsAgree a r.instr) = true) (hany : (foldedArgs cfg a rs).any RArg.isSw = true) :
+    recognizeDiffSwitch cfg (a :: b :: rest) = some (
+      { time := a.time, label := a.label, kind := a.kind, opcode := a.opcode, fixed := a.fixed, args := foldedArgs cfg a rs,
+        mask := (a.mask &&& auxBits cfg.defs) ||| diffBits cfg.defs }, rs.map (·.instr)) := by
+  have h1 : ¬ rs.length < 2 := by omega
+  have h2 : ¬ numDifficulties rs < 4 := by omega
+  simp [recognizeDiffSwitch, hk, ht, hm, hg, h1, h2, switchifyParts, hparts, hany]
+
+section Canon2
+variable {cfg : Cfg} {n : Nat} {E : Mask} {s : RStmt}
+
+theorem canonical_starts (hc : Canonical cfg n E s) : ∃ b0 st, bitsOf E = 0 :: b0 :: st := by
+  have h0 : 0 ∈ bitsOf E := (mem_bitsOf E 0).mpr ⟨by omega, hc.e0⟩
+  have hs := bitsOf_sorted E
+  cases hb : bitsOf E with
+  | nil => rw [hb] at h0; simp at h0
+  | cons x rest =>
+    rw [hb] at h0 hs
+    have hx : x = 0 := by
+      rcases List.mem_cons.mp h0 with e | e
+      · exact e.symm
+      · have := (List.pairwise_cons.mp hs).1 0 e; omega
+    cases rest with
+    | nil => have := hc.two; rw [hb] at this; simp at this
+    | cons b0 st => exact ⟨b0, st, by rw [hx]⟩
+
+theorem switch_rebuild (hc : Canonical cfg n E s) (k : Nat) (cs : List (Option Int32)) (h : s.args[k]? = some (.sw cs)) :
+    switchFromExplicit n E ((bitsOf E).map (argAt (.sw cs))) = cs := by
+  obtain ⟨hlen, hsome, _⟩ := hc.swOk k cs h
+  apply List.ext_getElem?
+  intro i
+  by_cases hi : i < n
+  · simp only [switchFromExplicit, List.getElem?_map, List.getElem?_range hi, Option.map_some, lookup_zip_self_map]
+    have hi8 : i < 8 := by have := hc.n8; omega
+    have hs := hsome i hi
+    have hget : cs[i]? = some cs[i] := List.getElem?_eq_getElem (by omega)
+    rw [hget] at hs ⊢
+    simp only [Option.join_some] at hs
+    by_cases hb : E.getLsbD i = true
+    · have hmem : i ∈ bitsOf E := (mem_bitsOf E i).mpr ⟨hi8, hb⟩
+      rw [hb] at hs
+      obtain ⟨v, hv⟩ := Option.isSome_iff_exists.mp hs
+      simp [hmem, argAt, hget, hv]
+    · have hmem : i ∉ bitsOf E := fun hm => hb ((mem_bitsOf E i).mp hm).2
+      have hb' : E.getLsbD i = false := by simpa using hb
+      rw [hb'] at hs
+      have : cs[i] = none := by simpa using hs
+      simp [hmem, this]
+  · have h1 : (switchFromExplicit n E ((bitsOf E).map (argAt (.sw cs))))[i]? = none := by
+      simp [switchFromExplicit]; omega
+    have h2 : cs[i]? = none := by simp; omega
+    rw [h1, h2]
+
+/-- **`recognize_expand`**: the raiser recovers every canonical statement from the instructions it
+compiles to - whatever follows them, as long as the next instruction does not continue the ladder
+(its difficulty part does not start at difficulty `n`). -/
+theorem recognize_expand (cfg : Cfg) (n : Nat) (E : Mask) (s : RStmt) (hc : Canonical cfg n E s) (tail : List RInstr)
+    (htail : ∀ t, tail.head? = some t → firstBit (diffPart cfg.defs t.mask) ≠ some n) :
+    recognizeDiffSwitch cfg (compiledOf cfg n E s ++ tail) = some (s, compiledOf cfg n E s) := by
+  obtain ⟨b0, st, hst⟩ := canonical_starts hc
+  have hsorted : (0 :: b0 :: (st ++ [n])).Pairwise (· < ·) := by
+    have h1 := bitsOf_sorted E
+    rw [hst] at h1
+    have h2 : ∀ x ∈ (0 :: b0 :: st), x < n := by
+      intro x hx
+      rw [← hst] at hx
+      have := (mem_bitsOf E x).mp hx
+      exact hc.eLt x this.1 this.2
+    have : (0 :: b0 :: (st ++ [n])) = (0 :: b0 :: st) ++ [n] := by simp
+    rw [this]
+    exact List.pairwise_append.mpr ⟨h1, by simp, fun a ha b hb => by simp at hb; subst hb; exact h2 a ha⟩
+  have hp0 := List.pairwise_cons.mp hsorted
+  have hb0pos : 0 < b0 := hp0.1 b0 (by simp)
+  have hcons : Consec b0 n (ranges (b0 :: (st ++ [n]))) := ranges_consec st b0 n hp0.2
+  have hb0n : b0 ≤ n := consec_le hcons
+  have hn8 := hc.n8
+  have hR : ranges (bitsOf E ++ [n]) = (0, b0) :: ranges (b0 :: (st ++ [n])) := by
+    rw [hst]; simp [ranges]
+  have hcomp : compiledOf cfg n E s = mkI cfg s s.label (0, b0) :: (ranges (b0 :: (st ++ [n]))).map (mkI cfg s false) := by
+    unfold compiledOf; rw [hR]
+  -- the second instruction exists
+  obtain ⟨r1, R'', hR'⟩ : ∃ r1 R'', ranges (b0 :: (st ++ [n])) = r1 :: R'' := by
+    cases st with
+    | nil => exact ⟨(b0, n), [], by simp [ranges]⟩
+    | cons x st' => exact ⟨(b0, x), ranges (x :: (st' ++ [n])), by simp [ranges]⟩
+  generalize hfirst : mkI cfg s s.label (0, b0) = first at *
+  let rs : List Rung := ⟨0, b0, first⟩ :: (ranges (b0 :: (st ++ [n]))).map (fun r => ⟨r.1, r.2, mkI cfg s false r⟩)
+  have hchain : Chain cfg.defs first 0 false rs := by
+    refine .cons rfl hb0pos (by show b0 ≤ 8; omega) ?_ rfl ?_ rfl (fun h => by cases h)
+      (chain_of_consec hc first s.label (0, b0) hb0n hfirst.symm hcons (Nat.le_refl _))
+    · show diffPart cfg.defs first.mask = rangeMask 0 b0
+      rw [← hfirst]; exact mkI_diffPart hc s.label (0, b0) hb0n
+    · show sameKind first first = true
+      rw [← hfirst]; exact mkI_sameKind _ _ _ _
+  have hnum : numDifficulties rs = n := by
+    show numDifficulties (⟨0, b0, first⟩ :: (ranges (b0 :: (st ++ [n]))).map (fun r => ⟨r.1, r.2, mkI cfg s false r⟩)) = n
+    have := consec_num hcons (mkI cfg s false) (by rw [hR']; simp)
+    rw [hR'] at this ⊢
+    simp only [List.map_cons] at this ⊢
+    rw [numDifficulties_cons]; exact this
+  have hinstrs : rs.map (·.instr) = compiledOf cfg n E s := by
+    rw [hcomp]; simp [rs, List.map_map, Function.comp_def]
+  have hg : gather cfg.defs first (compiledOf cfg n E s ++ tail) 0 0 = rs := by
+    rw [← hinstrs]
+    refine gather_of_chain cfg.defs first tail hchain 0 (by simp) n ?_ (tail_stops cfg.defs first tail n htail)
+    have : rs.getLast? ≠ none := by simp [rs]
+    cases hl : rs.getLast? with
+    | none => exact absurd hl this
+    | some r => simp only; rw [← hnum]; simp [numDifficulties, hl]
+  -- the folded arguments are the statement's arguments
+  have hstarts : rs.map (·.start) = bitsOf E := by
+    have := ranges_fst (bitsOf E) n
+    rw [hR] at this
+    simp only [List.map_cons] at this
+    simp [rs, List.map_map, Function.comp_def]
+    rw [← this]
+  have hexpl : explicitMask rs = E := by rw [explicitMask_eq, hstarts]; exact ofList_bitsOf E
+  have hcol : ∀ k, column rs k = (bitsOf E).map (fun d => (s.args.map (argAt · d)).getD k 0) := by
+    intro k
+    rw [← hstarts]
+    simp only [column, List.map_map, rs, List.map_cons, Function.comp_def]
+    rw [← hfirst]
+    simp [mkI]
+  have hfargs : foldedArgs cfg first rs = s.args := by
+    have hlen : first.args.length = s.args.length := by rw [← hfirst]; simp [mkI]
+    have hop : first.opcode = s.opcode := by rw [← hfirst]; rfl
+    unfold foldedArgs
+    rw [hlen, hop, hnum, hexpl]
+    apply List.ext_getElem
+    · simp
+    · intro k h1 h2
+      simp only [List.getElem_map, List.getElem_range]
+      rw [hcol k]
+      have hget : s.args[k]? = some s.args[k] := List.getElem?_eq_getElem h2
+      have hfun : (fun d => (s.args.map (argAt · d)).getD k 0) = argAt s.args[k] := by
+        funext d
+        simp [List.getD_eq_getElem?_getD, hget]
+      rw [hfun]
+      cases ha : s.args[k] with
+      | one v =>
+        rw [ha] at hget
+        have hv := hc.oneOk k v hget
+        have hmapc : (bitsOf E).map (argAt (.one v)) = (bitsOf E).map (fun _ => v) := rfl
+        unfold switchOrScalar
+        rw [hmapc, hst]
+        simp [hv]
+      | sw cs =>
+        rw [ha] at hget
+        obtain ⟨_, _, hne⟩ := hc.swOk k cs hget
+        have hhead : ((bitsOf E).map (argAt (.sw cs))).headD 0 = argAt (.sw cs) 0 := by rw [hst]; rfl
+        unfold switchOrScalar
+        rw [hhead, hne]
+        simp only [Bool.false_eq_true, if_false]
+        rw [switch_rebuild hc k cs hget]
+  have hparts : rs.all (fun r => partsAgree first r.instr) = true := by
+    apply List.all_eq_true.mpr
+    intro r hr
+    simp only [rs, List.mem_cons, List.mem_map] at hr
+    rcases hr with e | ⟨q, _, e⟩
+    · subst e; simp [partsAgree]
+    · subst e; rw [← hfirst]; simp [partsAgree, mkI]
+  have hmask : first.mask ≠ 0xFF#8 := by
+    intro h
+    have hb8 : b0 < 8 := by
+      have : b0 < n := by
+        have := (List.pairwise_cons.mp hp0.2).1 n (by simp); exact this
+      omega
+    have hbit := congrArg (·.getLsbD b0) h
+    rw [← hfirst] at hbit
+    simp only [mkI, BitVec.getLsbD_or, BitVec.getLsbD_and, rangeMask_get 0 b0 b0 hb8, ff_get b0 hb8] at hbit
+    have hax := hc.diffRun b0 (by
+      have := (List.pairwise_cons.mp hp0.2).1 n (by simp); exact this)
+    simp [hax] at hbit
+  -- assemble
+  rw [hcomp, hR'] at hg ⊢
+  simp only [List.map_cons, List.cons_append] at hg ⊢
+  have := recognizeDiffSwitch_eq cfg first (mkI cfg s false r1) (R''.map (mkI cfg s false) ++ tail) rs
+    (by rw [← hfirst]; exact mkI_sameKind _ _ _ _) (by rw [← hfirst]; rfl) hmask hg
+    (by simp [rs, hR']) (by rw [hnum]; exact hc.n4) hparts (by rw [hfargs]; exact hc.someSw)
+  rw [this, hfargs]
+  have hs : (⟨first.time, first.label, (first.mask &&& auxBits cfg.defs) ||| diffBits cfg.defs, first.kind, first.opcode,
+      first.fixed, s.args⟩ : RStmt) = s := by
+    have hm : (first.mask &&& auxBits cfg.defs) ||| diffBits cfg.defs = s.mask := by
+      apply mask_ext
+      intro j hj
+      have hall := congrArg (·.getLsbD j) hc.allDiff
+      rw [← hfirst]
+      simp only [mkI, BitVec.getLsbD_or, BitVec.getLsbD_and, diffBits, auxBits, BitVec.getLsbD_not, hj, decide_true,
+        Bool.true_and] at hall ⊢
+      have hr := fun h => range_no_aux hc 0 b0 j hj hb0n h
+      simp only [auxBits] at hr
+      cases hx : (rangeMask 0 b0).getLsbD j <;> cases hd : cfg.defs.defaultOn.getLsbD j <;>
+        cases hmj : s.mask.getLsbD j <;> simp_all
+    rw [hm, ← hfirst]
+    cases s; rfl
+  rw [hs]
+  simp [rs, hR', List.map_map, Function.comp_def]
+
+end Canon2
+
+theorem compiledOf_args (cfg : Cfg) (n : Nat) (E : Mask) (s : RStmt) :
+    (compiledOf cfg n E s).map (·.args) = (bitsOf E).map (fun d => s.args.map (argAt · d)) := by
+  have h := ranges_fst (bitsOf E) n
+  unfold compiledOf
+  cases hR : ranges (bitsOf E ++ [n]) with
+  | nil => rw [hR] at h; simp at h; simp [← h]
+  | cons r0 rest =>
+    rw [hR] at h
+    rw [← h]
+    simp [mkI, List.map_map, Function.comp_def]
+
+theorem compiledOf_opcode (cfg : Cfg) (n : Nat) (E : Mask) (s : RStmt) : ∀ i ∈ compiledOf cfg n E s, i.opcode = s.opcode := by
+  intro i hi
+  unfold compiledOf at hi
+  cases hR : ranges (bitsOf E ++ [n]) with
+  | nil => rw [hR] at hi; simp at hi
+  | cons r0 rest =>
+    rw [hR] at hi
+    simp only [List.mem_cons, List.mem_map] at hi
+    rcases hi with e | ⟨q, _, e⟩ <;> subst e <;> rfl
+
+/-- in the expansion of a canonical statement an argument position whose values all compare equal
+holds one bit pattern -/
+theorem exactFold_canonical {cfg : Cfg} {n : Nat} {E : Mask} {s : RStmt} (hc : Canonical cfg n E s) :
+    ExactFold cfg (compiledOf cfg n E s) := by
+  obtain ⟨b0, st, hst⟩ := canonical_starts hc
+  intro a ha k hall i hi
+  have hargs := compiledOf_args cfg n E s
+  have hop : a.opcode = s.opcode := compiledOf_opcode cfg n E s a (List.mem_of_mem_head? ha)
+  -- the arguments of the first instruction are the values at difficulty 0
+  have ha0 : a.args = s.args.map (argAt · 0) := by
+    have := congrArg List.head? hargs
+    rw [List.head?_map, ha, hst] at this
+    simpa using this
+  obtain ⟨d, hd, hid⟩ : ∃ d ∈ bitsOf E, i.args = s.args.map (argAt · d) := by
+    have : i.args ∈ (compiledOf cfg n E s).map (·.args) := List.mem_map.mpr ⟨i, hi, rfl⟩
+    rw [hargs] at this
+    obtain ⟨d, hd, e⟩ := List.mem_map.mp this
+    exact ⟨d, hd, e.symm⟩
+  rw [hid, ha0]
+  cases hk : s.args[k]? with
+  | none =>
+    have : s.args.length ≤ k := by simpa using hk
+    simp [List.getD_eq_getElem?_getD, hk]
+  | some arg =>
+    cases arg with
+    | one v => simp [List.getD_eq_getElem?_getD, hk, argAt]
+    | sw cs =>
+      exfalso
+      obtain ⟨_, _, hne⟩ := hc.swOk k cs hk
+      have hall' : ((compiledOf cfg n E s).map (·.args)).all
+          (fun as => valEq cfg s.opcode k (as.getD k 0) ((s.args.map (argAt · 0)).getD k 0)) = true := by
+        rw [List.all_map]
+        simpa [Function.comp_def, hop, ha0] using hall
+      rw [hargs, List.all_map] at hall'
+      have : ((bitsOf E).map (argAt (.sw cs))).all (fun c => valEq cfg s.opcode k c (argAt (.sw cs) 0)) = true := by
+        rw [List.all_map]
+        simpa [Function.comp_def, List.getD_eq_getElem?_getD, hk] using hall'
+      rw [this] at hne
+      cases hne
+
+/-- **a canonical statement compiles to `compiledOf`** (label printed and parsed, `expand`) - so
+`recognize_expand` is about the image of `expand` -/
+theorem lowerStmt_canonical (cfg : Cfg) (hinv : Inv cfg.defs) (n : Nat) (E : Mask) (s : RStmt) (hc : Canonical cfg n E s) :
+    lowerStmt cfg.defs s = .ok ((compiledOf cfg n E s).map (·.raw)) := by
+  have h := recognize_expand cfg n E s hc [] (by intro t ht; simp at ht)
+  rw [List.append_nil] at h
+  exact (fold_lowers_core cfg hinv _ s _ h (exactFold_canonical hc)).2.2
+
+/-- more fuel than instructions changes nothing -/
+theorem performGo_fuel2 (cfg : Cfg) (fuel : Nat) (l : List RInstr) (f2 : Nat) (h : l.length ≤ fuel) (h2 : l.length ≤ f2) :
+    performGo cfg fuel l = performGo cfg f2 l := by
+  induction fuel generalizing l f2 with
+  | zero => have : l = [] := List.length_eq_zero_iff.mp (by omega)
+            subst this; cases f2 <;> rfl
+  | succ fuel ih =>
+    cases l with
+    | nil => cases f2 <;> rfl
+    | cons i rest =>
+      cases f2 with
+      | zero => simp at h2
+      | succ f2 =>
+        simp only [performGo]
+        split
+        · rename_i s rungs hrec
+          obtain ⟨a, tl0, rs, tl, hl, hr, htl, hlen, _⟩ := fold_spec hrec
+          have hrl : 2 ≤ rungs.length := by rw [hr]; simpa using hlen
+          have hdrop : (i :: rest).drop rungs.length = tl := by rw [htl]; simp
+          have hlens : tl.length + rungs.length = rest.length + 1 := by
+            have := congrArg List.length htl
+            simp only [List.length_cons, List.length_append] at this
+            omega
+          simp only [List.length_cons] at h h2
+          rw [hdrop, ih tl f2 (by omega) (by omega)]
+        · simp only [List.length_cons] at h h2
+          rw [ih rest f2 (by omega) (by omega)]
+
+theorem performGo_fuel (cfg : Cfg) (fuel : Nat) (l : List RInstr) (h : l.length ≤ fuel) :
+    performGo cfg fuel l = performGo cfg l.length l :=
+  performGo_fuel2 cfg fuel l l.length h (Nat.le_refl _)
+
+/-- **script level**: a script that starts with the expansion of a canonical statement decompiles
+to that statement followed by the decompilation of the rest -/
+theorem recognize_expand_script (cfg : Cfg) (n : Nat) (E : Mask) (s : RStmt) (hc : Canonical cfg n E s)
+    (hraise : canRaise cfg s.kind s.opcode = true) (tail : List RInstr)
+    (htail : ∀ t, tail.head? = some t → firstBit (diffPart cfg.defs t.mask) ≠ some n) :
+    recognize cfg (compiledOf cfg n E s ++ tail) = s :: recognize cfg tail := by
+  have h := recognize_expand cfg n E s hc tail htail
+  unfold recognize performRecognition
+  cases hl : compiledOf cfg n E s ++ tail with
+  | nil => rw [hl] at h; simp [recognizeDiffSwitch] at h
+  | cons i rest =>
+    rw [hl] at h
+    simp only [List.length_cons, performGo, h]
+    have hdrop : (i :: rest).drop (compiledOf cfg n E s).length = tail := by rw [← hl]; simp
+    have hlen : tail.length ≤ rest.length := by
+      have := congrArg List.length hl
+      have h2 : 2 ≤ (compiledOf cfg n E s).length := by
+        obtain ⟨a, tl0, rs, tl, _, hr, _, hlen, _⟩ := fold_spec h
+        rw [hr]; simpa using hlen
+      simp only [List.length_cons, List.length_append] at this
+      omega
+    rw [hdrop, performGo_fuel cfg rest.length tail hlen]
+    simp [render, hraise]
+
+/-! non-vacuity of `Canonical` / `recognize_expand` -/
+
+/-- `{label}: ins_1002((1 : 2 : 3 : ), 7)` at time 10 under the built-in table -/
+def canonI : RStmt :=
+  { time := 10, label := true, mask := 0xFF#8, kind := .ins, opcode := 1002, fixed := [],
+    args := [.sw [some 1, some 2, some 3, none], .one 7] }
+
+theorem canonI_canonical : Canonical cfgI 4 0b0111#8 canonI where
+  n4 := by decide
+  n8 := by decide
+  diffRun := by decide
+  allDiff := by decide
+  e0 := by decide
+  eLt := by decide
+  two := by decide
+  someSw := by decide
+  oneOk := by intro k v _; simp [valEq, cfgI]
+  swOk := by
+    intro k cs h
+    match k, h with
+    | 0, h =>
+      have : cs = [some 1, some 2, some 3, none] := by simpa [canonI] using h.symm
+      subst this; decide
+    | 1, h => simp [canonI] at h
+    | k + 2, h => simp [canonI] at h
+
+example : compiledOf cfgI 4 0b0111#8 canonI = ladderI.take 3 := by decide
+
+example : recognize cfgI (ladderI.take 3 ++ [rung 10 false .ins 1002 0xFF#8 [9, 9]]) =
+    canonI :: recognize cfgI [rung 10 false .ins 1002 0xFF#8 [9, 9]] :=
+  recognize_expand_script cfgI 4 0b0111#8 canonI canonI_canonical rfl [rung 10 false .ins 1002 0xFF#8 [9, 9]] (by decide)
+
+example : lowerStmt cfgI.defs canonI = .ok ((ladderI.take 3).map (·.raw)) :=
+  lowerStmt_canonical cfgI inv_default 4 0b0111#8 canonI canonI_canonical
 
 end TruthModel.C14
